@@ -102,6 +102,16 @@
 (*                              when the live order was right              *)
 (*   DevReplayResurrectsWithdrawn  no memory of processed withdrawals (G01)*)
 (*                                                                         *)
+(* Instances (checks/_sleepqueue.py generates the cfgs):                   *)
+(*   replay   Peers {s}, Origins {o1,o2}, MaxSeq 2 (thorough 3), Bound 2,  *)
+(*            FrameCap 2, MaxLive 3, MaxSleeps 2: relations emitted with   *)
+(*            Ghost = FALSE for Dev = {} (ideal), AS_BUILT_Q (queue type,  *)
+(*            codec, receiver) and AS_BUILT_A (whole agents, with and      *)
+(*            without DevSeenBlocksResync; MaxHolderWake = 0)              *)
+(*   sens     one origin, Bound 1, FrameCap 1, MaxLive 2, DevChoices = the *)
+(*            ideal design, the full-table design, every deviation: Catch  *)
+(*            / CatchStep report what catches each                         *)
+(*   big      (thorough) two peers / MaxLive 4, model checking only        *)
 (* Ghost variables (owed, lost, dlv, redelivered, counters) never          *)
 (* influence the other variables.                                          *)
 (***************************************************************************)
